@@ -486,9 +486,13 @@ func splitRaceSections(rep string) []string {
 func firstCasketFuncIn(sec string) string {
 	for _, l := range strings.Split(sec, "\n") {
 		t := strings.TrimSpace(l)
-		if strings.HasPrefix(t, "github.com/tmpim/casket/") && strings.HasSuffix(t, ")") {
+		if (strings.HasPrefix(t, "github.com/tmpim/casket/") || strings.HasPrefix(t, "github.com/tmpim/casket.")) && strings.HasSuffix(t, ")") {
 			if i := strings.LastIndex(t, "("); i > 0 {
 				t = t[:i]
+			}
+			if strings.HasPrefix(t, "github.com/tmpim/casket.") {
+				// a function of the root package
+				return "casket." + strings.TrimPrefix(t, "github.com/tmpim/casket.")
 			}
 			return strings.TrimPrefix(t, "github.com/tmpim/casket/")
 		}
